@@ -114,7 +114,8 @@ def configs(tier):
     add(N=4, M=1, delay=1, latency="sym", spread=2.0, free_kinds=["quote"], insertion="free-first")
     if tier == "thorough":
         for d in (0, 1, 2, 3):
-            add(N=5, M=2, delay=d, latency="sym", spread=2.0, free_kinds=["quote", "quote"])
+            if d in (0, 3):      # two extra quotes: 100 k paths per delay (measured), two delays kept
+                add(N=5, M=2, delay=d, latency="sym", spread=2.0, free_kinds=["quote", "quote"])
             add(N=5, M=1, delay=d, latency="sym", spread=2.0, free_kinds=["quote"], sells=True)
             add(N=5, M=0, delay=d, latency="zero", space="discrete")
         add(N=4, M=2, delay=1, latency="sym", spread=2.0, free_kinds=["quote", "quote"], two_contracts=True)
